@@ -204,8 +204,8 @@ func genProgram(c *core.Ctx, i int, ending string) map[string]string {
 
 // Run is the C03 check.
 func Run(c *core.Ctx) int {
-	nprog := c.N(28, 400)
-	ntapes := c.N(8, 48)
+	nprog := c.N(14, 400)
+	ntapes := c.N(6, 48)
 	var endNames []string
 	for k := range endings {
 		endNames = append(endNames, k)
@@ -346,6 +346,106 @@ func Run(c *core.Ctx) int {
 			c.Sample(map[string]any{"program": name, "tapes": ntapes, "reference_trace": ref.Lines, "outcome": ref.Outcome})
 		}
 	})
+	// ---- layer 1: small configurations against the reference interpreter of channel semantics
+	nconf := c.N(24, 2500)
+	ctapes := c.N(6, 40)
+	confExecs, tuplesSeen, tuplesAllowed, modelStates, confs := 0, 0, 0, 0, 0
+	c.Parallel(nconf, func(i int) {
+		r := c.Rand(fmt.Sprint("conf", i))
+		cf := genConfig(r)
+		name := fmt.Sprintf("c03/conf-%d-%d", c.Seed, i)
+		files := proglib.WithLib(map[string]string{"main.go": cf.render()})
+		set, states := allowed(cf)
+		prog := &core.Program{Name: name, Files: files}
+		dir := c.WriteProgram(prog)
+		defer os.RemoveAll(dir)
+		bundle := func(extra map[string]string) map[string]string {
+			m := map[string]string{"config.txt": cf.String() + "\n", "allowed.txt": strings.Join(sortedKeys(set), "\n") + "\n"}
+			for k, v := range files {
+				m["src/"+k] = v
+			}
+			for k, v := range extra {
+				m[k] = v
+			}
+			return m
+		}
+		bin, br := c.BuildNative(dir, core.NativeOpt{})
+		if br.Exit != 0 {
+			c.Inconclusive("conf-reference-rejects-program")
+			if os.Getenv("VERIF_DEBUG") != "" {
+				fmt.Fprintln(os.Stderr, name, br.Stderr)
+			}
+			return
+		}
+		// validate the model against the reference toolchain
+		for k := 0; k < c.N(3, 9); k++ {
+			nr := core.NormNative(c.RunNative(bin, []string{"GOMAXPROCS=" + []string{"1", "2", "16"}[k%3]}, 0))
+			if nr.Outcome == "timeout" {
+				c.Inconclusive("conf-reference-timeout")
+				return
+			}
+			t := observe(nr.Lines, nr.Outcome, len(cf.Gs))
+			if !set[t] {
+				c.Inconclusive("model-rejects-reference")
+				if os.Getenv("VERIF_DEBUG") != "" {
+					fmt.Fprintln(os.Stderr, name, cf.String(), "\n  native tuple:", t, "\n  allowed:", strings.Join(sortedKeys(set), "\n           "))
+				}
+				return
+			}
+		}
+		cr := c.CompileJS(dir, core.CompileOpt{})
+		if !cr.OK {
+			c.Violate(name, "compiler rejected a program the reference accepts:\n"+cr.Output, bundle(nil))
+			return
+		}
+		seenT := map[string]bool{}
+		le := 0
+		for t := 0; t < ctapes; t++ {
+			tape := fmt.Sprintf("%d:%d", 1+t*104729+i, t%2)
+			run := c.RunNode(cr.JS, core.NodeOpt{Preload: []string{preload}, Env: []string{"VP_TAPE=" + tape, "GOPHERJS_VERIF_MON=1"}})
+			jt := core.NormJS(run)
+			if jt.Outcome == "timeout" {
+				c.Inconclusive("node-timeout")
+				continue
+			}
+			tup := observe(jt.Lines, jt.Outcome, len(cf.Gs))
+			if !set[tup] {
+				c.Violate(name+"/tape-"+tape, fmt.Sprintf("%s [%s] under tape %s: the observation is not allowed by Go's channel semantics:\n  observed: %s\n  allowed:  %s", name, cf.String(), tape, tup, strings.Join(sortedKeys(set), "\n            ")),
+					bundle(map[string]string{"js.out": jt.String(), "js.stderr": run.Stderr, "observed.txt": tup + "\n"}))
+				break
+			}
+			inv := false
+			for _, l := range strings.Split(run.Stderr, "\n") {
+				if strings.HasPrefix(l, "VERIF-INVARIANT ") {
+					c.Violate(name+"/tape-"+tape+"/invariant", fmt.Sprintf("%s [%s] under tape %s: runtime invariant monitor: %s", name, cf.String(), tape, l), bundle(map[string]string{"js.stderr": run.Stderr}))
+					inv = true
+					break
+				}
+			}
+			if inv {
+				break
+			}
+			seenT[tup] = true
+			le++
+		}
+		mu.Lock()
+		defer mu.Unlock()
+		confs++
+		confExecs += le
+		tuplesSeen += len(seenT)
+		tuplesAllowed += len(set)
+		modelStates += states
+		distinct["conf "+cf.String()] = true
+		if confs <= 2 {
+			c.Sample(map[string]any{"configuration": cf.String(), "allowed_tuples": sortedKeys(set), "observed_tuples": sortedKeys(seenT)})
+		}
+	})
+	c.Count("small_configurations", confs)
+	c.Count("small_configuration_executions", confExecs)
+	c.Count("distinct_observation_tuples_seen", tuplesSeen)
+	c.Count("observation_tuples_allowed_by_model", tuplesAllowed)
+	c.Count("model_states_explored", modelStates)
+	execs += confExecs
 	c.Count("programs", programs)
 	c.Count("executions_under_choice_tapes", execs)
 	c.Count("channel_history_events_checked", events)
